@@ -24,6 +24,9 @@ type CtlCase struct {
 	// any more, but frames must still reach the handlers and reads must end
 	// with the CloseError of the received close.
 	LocalClose bool `json:"local_close,omitempty"`
+	// TightLimit: SetReadLimit(largest message's size on the wire): control
+	// frames are not part of any message, so nothing may change.
+	TightLimit bool `json:"tight_limit,omitempty"`
 }
 
 var errHandler = errors.New("harness: handler says no")
@@ -46,6 +49,7 @@ func genCtlCase(t *rapid.T) CtlCase {
 	c.Handlers = rapid.SampledFrom([]string{"default", "default", "custom", "fail"}).Draw(t, "handlers")
 	c.FailAt = rapid.IntRange(0, 6).Draw(t, "fail_at")
 	c.LocalClose = rapid.IntRange(0, 4).Draw(t, "local_close") == 0
+	c.TightLimit = rapid.IntRange(0, 3).Draw(t, "tight_limit") == 0
 	return c
 }
 
@@ -69,6 +73,18 @@ func checkC08(c CtlCase, o *Obs) error {
 		h.failAt = c.FailAt
 	}
 	h.install(conn)
+	if c.TightLimit {
+		limit := 1
+		for _, m := range model.Msgs {
+			if m.WireLen > limit {
+				limit = m.WireLen
+			}
+		}
+		conn.SetReadLimit(int64(limit))
+		if len(model.Ctl) > 0 {
+			o.Class("tight_read_limit_with_control_frames")
+		}
+	}
 	localClose := websocket.FormatCloseMessage(1001, "bye")
 	if c.LocalClose {
 		if err := conn.WriteControl(websocket.CloseMessage, localClose, time.Time{}); err != nil {
